@@ -28,6 +28,9 @@ class FrozenDict(dict):
         except KeyError:
             raise AttributeError(k)
 
+    def __reduce__(self):
+        return (FrozenDict, (dict(self),))
+
     def _ro(self, *a, **k):
         raise TypeError("FrozenDict is read-only")
 
